@@ -62,7 +62,7 @@ def cases(tier, seed):
     return out
 
 
-def _one(t, tmpdir, k, pattern, outlen, as_path, exhaustive, meta_kind=0, dtype='float32', pre_check=0, raw=False, reuse_output=None):
+def _one(t, tmpdir, k, pattern, outlen, as_path, exhaustive, meta_kind=0, dtype='float32', pre_check=0, raw=False, reuse_output=None, ret='fresh'):
     import scared
     import estraces
     N, L = len(pattern), 7
@@ -80,9 +80,14 @@ def _one(t, tmpdir, k, pattern, outlen, as_path, exhaustive, meta_kind=0, dtype=
     if raw:
         outlen = L          # the function hands back the trace's own samples object (array-like, not an ndarray)
 
+    wide = ret == 'wide' and np.dtype(dtype).kind == 'i' and not raw
+    buf = {}
+
     def expected_data(i):
         if raw:
             return samples[i]
+        if wide:
+            return samples[i, :min(outlen, L)].astype('int64') * 1000 - 70000 - i          # wider than, and outside the range of, the input dtype
         if outlen <= L:
             return (samples[i, :outlen] * 2 + i).astype(dtype)
         return np.concatenate([samples[i], np.full(outlen - L, float(i), dtype=dtype)])
@@ -104,6 +109,13 @@ def _one(t, tmpdir, k, pattern, outlen, as_path, exhaustive, meta_kind=0, dtype=
             return None
         if raw:
             return trace_object.samples
+        if wide:
+            return trace_object.samples[:min(outlen, L)].astype('int64') * 1000 - 70000 - i
+        if ret == 'same_buffer' and outlen <= L:
+            # the user function refills and returns one preallocated array (the Synchronizer must have stored trace k before asking for trace k+1)
+            b = buf.setdefault('a', np.zeros(outlen, dtype=dtype))
+            b[...] = trace_object.samples[:outlen] * 2 + i
+            return b
         if outlen <= L:
             return trace_object.samples[:outlen] * 2 + i
         return np.concatenate([trace_object.samples[:], np.full(outlen - L, float(i), dtype=dtype)])
@@ -217,7 +229,8 @@ def run_case(case):
     try:
         if case['gen'] == 'exh':
             for k, p in enumerate(case['patterns']):
-                _one(t, tmpdir, k, p, case['outlen'], case['as_path'], True, meta_kind=k % 3, pre_check=(1 if k % 4 == 3 else 0), raw=(k % 5 == 2), reuse_output=(None if k % 7 else bool(k % 2)))
+                _one(t, tmpdir, k, p, case['outlen'], case['as_path'], True, meta_kind=k % 3, pre_check=(1 if k % 4 == 3 else 0), raw=(k % 5 == 2), reuse_output=(None if k % 7 else bool(k % 2)), ret=['fresh', 'same_buffer', 'fresh', 'wide'][k % 4],
+                     dtype=['float32', 'int16'][(k // 4) % 2])
             sig = f"exh|{len(case['patterns'][0])}|{case['patterns'][0]}|{case['outlen']}|{case['as_path']}"
         else:
             rng = gen.rng_of(case['sub'])
@@ -240,7 +253,7 @@ def run_case(case):
                     p[0], p[-1] = 'a', 'a'
                 _one(t, tmpdir, k, ''.join(p), int(rng.choice([3, 7, 12, 1])), bool(rng.integers(2)), False, meta_kind=int(rng.integers(3)),
                      dtype=['float32', 'float64', 'int16'][int(rng.integers(3))], pre_check=int(rng.choice([0, 0, 1, 2])), raw=bool(rng.random() < 0.2),
-                     reuse_output=[None, None, None, True, False][int(rng.integers(5))])
+                     reuse_output=[None, None, None, True, False][int(rng.integers(5))], ret=['fresh', 'same_buffer', 'wide'][int(rng.integers(3))])
             sig = f"rand|{case['sub']}"
     finally:
         shutil.rmtree(tmpdir, ignore_errors=True)
